@@ -40,6 +40,7 @@ type c08Case struct {
 	Forks   string `json:"forks"` // none | info | infoc | infonc | inforsrc | rsrc
 	Offset  int    `json:"offset"` // -1 = no resume data
 	Preview bool   `json:"preview"`
+	OwnRoot bool   `json:"ownroot"` // the account has its own file root; the server-wide root holds a different file of the same name
 }
 
 func c08Data(n int) []byte {
@@ -61,8 +62,13 @@ func c08Run(w *explore.Worker, c c08Case) {
 	var rsrc []byte
 	seqChecked(w, "C08", "download", c, func() {
 		wd := world.New(world.Cfg{
-			Accounts: []world.Acct{{Login: "guest", Name: "Guest"}, {Login: "u", Name: "u", Password: "pw", Access: world.AllAccess}},
+			Accounts: []world.Acct{{Login: "guest", Name: "Guest"}, {Login: "u", Name: "u", Password: "pw", Access: world.AllAccess, FileRoot: map[bool]string{true: "$CONFIG/Rroot", false: ""}[c.OwnRoot]}},
 			Files: func(root string) {
+				if c.OwnRoot {
+					_ = os.WriteFile(filepath.Join(root, c.Disk), append([]byte("DECOY in the server-wide root "), data...), 0644)
+					root = filepath.Join(filepath.Dir(root), "Rroot")
+					_ = os.MkdirAll(root, 0755)
+				}
 				_ = os.WriteFile(filepath.Join(root, c.Disk), data, 0644)
 				mk := func(comment string, noSize bool) {
 					f := ref.NewInfoFork(c.Disk, "TEXT", "ttxt", comment)
@@ -231,6 +237,15 @@ func c08Cases(thorough bool) []c08Case {
 				cs = append(cs, c08Case{Size: sz, Name: []byte("f.txt"), Disk: "f.txt", Forks: f, Offset: k})
 			}
 			cs = append(cs, c08Case{Size: sz, Name: []byte("f.txt"), Disk: "f.txt", Forks: f, Offset: -1, Preview: true})
+		}
+	}
+	for _, sz := range []int{0, 8, 513} {
+		for _, f := range forks {
+			for _, k := range []int{-1, 0, 1} {
+				if k <= sz {
+					cs = append(cs, c08Case{Size: sz, Name: []byte("f.txt"), Disk: "f.txt", Forks: f, Offset: k, OwnRoot: true})
+				}
+			}
 		}
 	}
 	names := []struct {
